@@ -219,5 +219,5 @@ func collectGarbage() {
 // limit stays as a safety net).
 func manualGC() {
 	debug.SetGCPercent(-1)
-	debug.SetMemoryLimit(3 << 30)
+	debug.SetMemoryLimit(1 << 30)
 }
